@@ -18,7 +18,9 @@
    -> Build (Present, Inherit, per-kind rules, sibling uniqueness)  = Schema(M)
    -> Prune(filter).
    Every prohibition of the RFC is an explicit "!error" marker; everything the
-   RFC (or the property statement) leaves open is an "!unjudged" marker.       *)
+   RFC (or the property statement) leaves open is an "!unjudged" marker (the
+   module set is not judged) or an "!open" marker (the compile verdict and one
+   attribute are not judged, the rest of the tree is).                         *)
 EXTENDS Integers, Sequences, FiniteSets, TLC
 
 MaxDepth == 6
@@ -194,7 +196,8 @@ AugmentAt(nodes, a, chain, M, st, d, mode) ==
   IN IF ip = <<>> THEN nodes \o <<Err("augment-target")>>
      ELSE
      LET t == GetAt(nodes, ip)
-         kids0 == ExpandBody(SelectSeq(a.subs, LAMBDA c : c.kw \in NodeKw \cup {"uses"}), chain, M, StOf(a, st), d + 1)
+         \* (what was found wrong while the body of the augment was expanded stays wrong when the body moves)
+         kids0 == ExpandBody(SelectSeq(a.subs, LAMBDA c : c.kw \in NodeKw \cup {"uses", "!error", "!unjudged"}), chain, M, StOf(a, st), d + 1)
          kids1 == Distribute(kids0, a)
          kids2 == IF t.kw = "choice" THEN WrapShort(kids1) ELSE kids1
          kids3 == IF mode = "module" THEN [i \in 1..Len(kids2) |-> IF kids2[i].kw \in NodeKw THEN [kids2[i] EXCEPT !.subs = @ \o <<St("!aug", <<"">>, <<>>)>>] ELSE kids2[i]]
@@ -348,12 +351,10 @@ DeviationAt(nodes, dn, M) ==
       F[i \in 0..Len(dvs)] == IF i = 0 THEN t ELSE DeviateNode(F[i-1], dvs[i])
   IN IF dvs = <<>> THEN nodes \o <<Err("deviation-without-deviate")>>
      ELSE IF ns # {} /\ Len(dvs) > 1 THEN nodes \o <<Err("deviate-not-supported-with-others")>>
+     \* the node leaves the tree; the marker left in its place only remembers that a node of this name was there, for the
+     \* statements of the parent that refer to it by name (key, unique, default case: see BuildNode)
      ELSE IF ns # {} THEN (IF dvs[1].subs # <<>> THEN nodes \o <<Err("deviate-not-supported-with-properties")>>
-                           ELSE IF Len(ip) > 1 /\ LET par == GetAt(nodes, SubSeq(ip, 1, Len(ip) - 1)) IN
-                                     \/ par.kw = "list" /\ \E c \in Range(Sub(par, "key") \o Sub(par, "unique")) : t.arg[1] \in Range(c.arg)
-                                     \/ par.kw = "choice" /\ Arg1(par, "default", "") = t.arg[1]
-                                THEN nodes \o <<Unj("not-supported of a list key, a unique leaf or a default case")>>
-                           ELSE SetAt(nodes, ip, <<>>))
+                           ELSE SetAt(nodes, ip, <<St("!gone", <<t.arg[1]>>, <<>>)>>))
      ELSE SetAt(nodes, ip, <<F[Len(dvs)]>>)
 \* strict: a deviation whose target is not found is an error; otherwise it is left in place
 ApplyDeviationsMode(M, strict) ==
@@ -405,6 +406,12 @@ Blank(kind, name) ==
    ordby |-> "system", uniques |-> {}, type |-> "", musts |-> {}, whens |-> <<>>, desc |-> "", children |-> {}]
 ErrNode(class) == Blank("!error", class)
 UnjNode(why) == Blank("!unjudged", why)
+\* The statement prescribes that a node which a feature or a not-supported deviation removes is absent.  It does not say
+\* what becomes of a list that names the absent leaf in key / unique or of a choice that names the absent case as its
+\* default: whether such a module set compiles is not judged ("open" verdict), and if it does, attribute attr of the
+\* parent is not compared - everything else, above all the absence of the node, is.
+OpenNode(attr, why) == [Blank("!open", attr) EXCEPT !.desc = why]
+GoneNames(s) == {g.arg[1] : g \in Range(Sub(s, "!gone"))}
 RECURSIVE NodeMarks(_, _)
 NodeMarks(n, kind) == (IF n.kind = kind THEN {n.name} ELSE {}) \cup UNION {NodeMarks(c, kind) : c \in n.children}
 
@@ -441,11 +448,12 @@ SplitFrom(str, start, i) == IF i > Len(str) THEN <<SubSeq(str, start, Len(str))>
                             ELSE SplitFrom(str, start, i + 1)
 SplitSlash(str) == SplitFrom(str, 1, 1)
 \* what a descendant schema node identifier of a unique statement designates below a list (RFC 6020 7.8.3):
-\* "ok" a leaf, "gone" a leaf that a feature removes, "notleaf", "list" (it passes through a list), "missing"
+\* "ok" a leaf, "gone" a leaf (or a node on the way) that a feature removes, "gone-ns" that a not-supported deviation
+\* removed, "notleaf", "list" (it passes through a list), "missing"
 RECURSIVE UniqueResolve(_, _, _)
 UniqueResolve(stmts, names, X) ==
   LET is == {i \in 1..Len(stmts) : stmts[i].kw \in NodeKw /\ stmts[i].arg[1] = names[1]} IN
-  IF is = {} THEN "missing"
+  IF is = {} THEN (IF \E i \in 1..Len(stmts) : stmts[i].kw = "!gone" /\ stmts[i].arg[1] = names[1] THEN "gone-ns" ELSE "missing")
   ELSE LET n == stmts[MinOf(is)] IN
        IF n.kw = "list" THEN "list"
        ELSE IF Len(names) = 1 THEN (IF n.kw # "leaf" THEN "notleaf" ELSE IF FeatOk(n, X) THEN "ok" ELSE "gone")
@@ -510,16 +518,20 @@ BuildNode(s, cfg, st, isKey, X) ==
       \cup (IF s.kw \in {"list", "leaf-list"} /\ mx # "unbounded" /\ mn \in DOMAIN Digit /\ mx \in DOMAIN Digit /\ Digit[mn] > Digit[mx]
             THEN {ErrNode("min-above-max")} ELSE {})
       \cup (IF s.kw = "list" /\ c /\ keys = <<>> THEN {ErrNode("key-required")} ELSE {})
-      \cup {ErrNode("key-not-a-leaf-child") : k \in {x \in Range(keys) : ~\E i \in 1..Len(s.subs) : s.subs[i].kw = "leaf" /\ s.subs[i].arg[1] = x}}
-      \cup {UnjNode("list key removed by a feature") : k \in {x \in Range(keys) : \E i \in 1..Len(s.subs) : s.subs[i].kw = "leaf" /\ s.subs[i].arg[1] = x /\ ~FeatOk(s.subs[i], X)}}
+      \cup {ErrNode("key-not-a-leaf-child") : k \in {x \in Range(keys) \ GoneNames(s) : ~\E i \in 1..Len(s.subs) : s.subs[i].kw = "leaf" /\ s.subs[i].arg[1] = x}}
+      \cup {OpenNode("keys", "not-supported") : k \in {x \in Range(keys) \cap GoneNames(s) : ~\E i \in 1..Len(s.subs) : s.subs[i].kw = "leaf" /\ s.subs[i].arg[1] = x}}
+      \cup {OpenNode("keys", "feature") : k \in {x \in Range(keys) : \E i \in 1..Len(s.subs) : s.subs[i].kw = "leaf" /\ s.subs[i].arg[1] = x /\ ~FeatOk(s.subs[i], X)}}
       \cup {ErrNode("unique-not-a-descendant-leaf") : u \in {y \in Range(Sub(s, "unique")) : s.kw = "list" /\ \E x \in Range(y.arg) :
                                                           UniqueResolve(s.subs, SplitSlash(x), X) \in {"missing", "notleaf", "list"}}}
-      \cup {UnjNode("unique leaf removed by a feature") : u \in {y \in Range(Sub(s, "unique")) : s.kw = "list" /\ \E x \in Range(y.arg) :
+      \cup {OpenNode("uniques", "feature") : u \in {y \in Range(Sub(s, "unique")) : s.kw = "list" /\ \E x \in Range(y.arg) :
                                                           UniqueResolve(s.subs, SplitSlash(x), X) = "gone"}}
+      \cup {OpenNode("uniques", "not-supported") : u \in {y \in Range(Sub(s, "unique")) : s.kw = "list" /\ \E x \in Range(y.arg) :
+                                                          UniqueResolve(s.subs, SplitSlash(x), X) = "gone-ns"}}
       \cup (IF s.kw = "choice" /\ Dup(caseNames) THEN {ErrNode("name-clash")} ELSE {})
-      \cup (IF s.kw = "choice" /\ hasd /\ Arg1(s, "default", "") \notin Range(caseNames) THEN {ErrNode("choice-default-missing")} ELSE {})
+      \cup (IF s.kw = "choice" /\ hasd /\ Arg1(s, "default", "") \notin Range(caseNames) \cup GoneNames(s) THEN {ErrNode("choice-default-missing")} ELSE {})
+      \cup (IF s.kw = "choice" /\ hasd /\ Arg1(s, "default", "") \in GoneNames(s) \ Range(caseNames) THEN {OpenNode("def", "not-supported")} ELSE {})
       \cup (IF s.kw = "choice" /\ hasd /\ Arg1(s, "default", "") \in Range(caseNames) /\ Arg1(s, "default", "") \notin hereCases
-            THEN {UnjNode("default case removed by a feature")} ELSE {})
+            THEN {OpenNode("def", "feature")} ELSE {})
       \cup (IF s.kw \in {"leaf", "leaf-list"} /\ ~Has(s, "type") THEN {ErrNode("type-required")} ELSE {})
       ns == NsOfOwn(X.M, s.own)
       base == [Blank(s.kw, s.arg[1]) EXCEPT
@@ -561,14 +573,25 @@ BuildAll(M, E) ==
                                               \cup {UnjNode(p) : p \in FeatureUnjudged(FS, M)}]
 
 RECURSIVE Clean(_)     \* drop the marker nodes
-Clean(n) == [n EXCEPT !.children = {Clean(c) : c \in {k \in n.children : k.kind \notin {"!error", "!unjudged"}}}]
+Clean(n) == [n EXCEPT !.children = {Clean(c) : c \in {k \in n.children : k.kind \notin {"!error", "!unjudged", "!open"}}}]
+\* the attributes that are not judged: [path (node names from the root), attr, why]
+RECURSIVE Opens(_, _)
+Opens(n, path) == {[path |-> path, attr |-> c.name, why |-> c.desc] : c \in {k \in n.children : k.kind = "!open"}}
+                  \cup UNION {Opens(c, path \o <<c.name>>) : c \in {k \in n.children : k.kind \notin {"!error", "!unjudged", "!open"}}}
+\* a schema (set form) with the attributes named in O blanked
+RECURSIVE MaskTree(_, _, _)
+MaskTree(n, path, O) ==
+  LET as == {o.attr : o \in {x \in O : x.path = path}}
+  IN [n EXCEPT !.keys = IF "keys" \in as THEN <<>> ELSE @, !.uniques = IF "uniques" \in as THEN {} ELSE @,
+               !.hasdef = IF "def" \in as THEN FALSE ELSE @, !.def = IF "def" \in as THEN "" ELSE @,
+               !.children = {MaskTree(c, path \o <<c.name>>, O) : c \in n.children}]
 
 \* ------------------------------------------------------------ writing a stage back as source
 RECURSIVE WriteBack(_, _)
 WriteBack(s, f) ==
   LET deq(arg) == [i \in 1..Len(arg) |-> IF i % 2 = 1 /\ arg[i] # "" THEN PrefixFor(f, arg[i]) ELSE arg[i]]
   IN [s EXCEPT !.arg = IF s.kw \in {"if-feature", "uses", "augment", "deviation", "refine"} THEN deq(s.arg) ELSE s.arg,
-               !.subs = LET keep == SelectSeq(s.subs, LAMBDA c : c.kw # "!aug") IN [i \in 1..Len(keep) |-> WriteBack(keep[i], f)]]
+               !.subs = LET keep == SelectSeq(s.subs, LAMBDA c : c.kw \notin {"!aug", "!gone"}) IN [i \in 1..Len(keep) |-> WriteBack(keep[i], f)]]
 \* modules the text of a file refers to by name
 RECURSIVE RefMods(_)
 RefMods(s) == (IF s.kw \in {"if-feature", "augment", "deviation"} THEN {s.arg[i] : i \in {j \in 1..Len(s.arg) : j % 2 = 1}} ELSE {})
@@ -597,14 +620,17 @@ Analyse(M, E) ==
       errs == MarksAll(T2, "!error") \cup MarksAll(T3, "!error") \cup MarksAll(T4, "!error") \cup NodeMarks(B, "!error")
       unj == MarksAll(T2, "!unjudged") \cup MarksAll(T3, "!unjudged") \cup MarksAll(T4, "!unjudged") \cup NodeMarks(B, "!unjudged")
       ed == ApplyDeviationsMode(T2, FALSE)
-  IN [verdict |-> IF unj # {} THEN "unjudged" ELSE IF errs # {} THEN "err" ELSE "ok",
-      errs |-> errs, why |-> unj,
+      opens == Opens(B, <<>>)
+  IN [verdict |-> IF unj # {} THEN "unjudged" ELSE IF errs # {} THEN "err" ELSE IF opens # {} THEN "open" ELSE "ok",
+      errs |-> errs, why |-> unj, opens |-> opens,
       schema |-> Clean(B),
       inlineOk |-> MarksAll(T2, "!error") = {} /\ (\A i \in 1..Len(T2) : ~TwoWhens(T2[i])) /\ "status-reference-in-grouping" \notin errs,
       inline |-> WriteAll(T2),
-      editOk |-> MarksAll(ed, "!error") = {} /\ MarksAll(ed, "!unjudged") = {} /\ (\A i \in 1..Len(ed) : ~TwoWhens(ed[i])) /\ "status-reference-in-grouping" \notin errs,
+      \* the source with a key / unique leaf / default case edited away is a different matter from the deviation (no Edit form)
+      editOk |-> MarksAll(ed, "!error") = {} /\ MarksAll(ed, "!unjudged") = {} /\ (\A i \in 1..Len(ed) : ~TwoWhens(ed[i])) /\ "status-reference-in-grouping" \notin errs
+                 /\ ~\E o \in opens : o.why = "not-supported",
       edit |-> WriteAll(ed)]
-Schema(M, E) == LET a == Analyse(M, E) IN [verdict |-> a.verdict, schema |-> IF a.verdict = "ok" THEN a.schema ELSE Blank("tree", "")]
+Schema(M, E) == LET a == Analyse(M, E) IN [verdict |-> a.verdict, schema |-> IF a.verdict \in {"ok", "open"} THEN MaskTree(a.schema, <<>>, a.opens) ELSE Blank("tree", "")]
 Inline(M) == Analyse(M, {}).inline
 Edit(M) == Analyse(M, {}).edit
 
